@@ -41,6 +41,18 @@ def _variant_cfg(fam, var):
     cfg["propagation"]["integration_method"] = fam.get("integrator", "RK45")
     cfg["propagation"]["truth_simulation_only"] = var.get("truth_only", False)
     eng = cfg["engines"][0]
+    if fam.get("hetero"):
+        # physically different spacecraft (same mass and area, different reflectivity) under solar radiation pressure:
+        # each agent's truth must depend on ITS parameters only, whichever other agents exist and in whichever order
+        cfg.setdefault("perturbations", {})["solar_radiation_pressure"] = True
+        cfg["perturbations"]["third_bodies"] = ["sun", "moon"]
+        geo = [su.target_cfg(41001 + i, sma_km=42164.0 + 50 * i, inc_deg=0.5 + i, ta_deg=10.0 + 40 * i, ecc=0.0005) for i in range(3)]
+        for i, t in enumerate(geo):
+            t["platform"] = {"type": "spacecraft", "mass": 500.0, "visual_cross_section": 20.0,
+                             "reflectivity": [0.21, 0.9, 0.55][i]}
+        eng["targets"] = geo[:fam["nt"]]
+        if var.get("reverse_targets"):
+            eng["targets"] = list(reversed(eng["targets"]))
     if var.get("drop_target") is not None and len(eng["targets"]) > 1:
         del eng["targets"][var["drop_target"]]
     if var.get("extra_target"):
@@ -153,6 +165,7 @@ def make_families(ctx: Ctx, rng):
         {"table_env": True, "env_seed": 11, "schedule": "random", "sched_seed": 9},
         {"reward": REWARD_ALT},
         {"extra_target": 1},
+        {"split_at": 2},                                        # the run is split exactly at the family's impulse epoch
         {"drop_sensor": 0, "schedule": "random", "sched_seed": 2},
         {"events": [{"kind": "removeSensor", "t0": None, "index": -1}]},   # another agent leaves mid-run
         {"events": [{"kind": "addTarget", "t0": None}], "decision": "MyopicNaiveGreedyDecision"},
@@ -162,6 +175,11 @@ def make_families(ctx: Ctx, rng):
     if not ctx.quick:
         specs += [("special_perturbations", "DOP853", 300, "2020-02-29T06:00:13"), ("two_body", "RK45", 7, "2021-06-15T03:17:41"),
                   ("special_perturbations", "RK45", 120, "2018-03-11T06:30:29")]
+    # heterogeneous spacecraft under solar radiation pressure: other agents present / absent / reordered
+    hv = [{}, {"drop_target": 0, "truth_only": True}, {"reverse_targets": True}, {"drop_target": 1},
+          {"reverse_targets": True, "drop_target": 0, "decision": "MyopicNaiveGreedyDecision"}]
+    fams.append({"model": "special_perturbations", "integrator": "RK45", "step": 300, "start": "2018-12-01T12:00:00",
+                 "nsteps": 3 if ctx.quick else 6, "nt": 3, "ns": 2, "events": [], "hetero": True, "variants": hv})
     for fi, (model, integ, step, start) in enumerate(specs):
         n = 4 if ctx.quick else 6
         for with_impulse in ((False, True) if fi % 2 == 0 or not ctx.quick else (False,)):
@@ -171,6 +189,8 @@ def make_families(ctx: Ctx, rng):
                 var = copy.deepcopy(var)
                 if "split" in var and var["split"] is None:
                     var["split"] = [1, n - 2, 1]
+                if "split_at" in var:
+                    var["split"] = [var.pop("split_at"), n - 2]
                 for e in var.get("events", []):
                     if e.get("t0") is None:
                         e["t0"] = rng.choice([step, 2 * step, step + 1])
